@@ -1,4 +1,6 @@
 import QibProofs.Lemmas.CompactFormula
+import QibProofs.Lemmas.CompactGroup
+import QibProofs.Lemmas.CompactAdj
 /-!
 C13 — Compact encoding is exact on its stabiliser code space.
 
@@ -51,6 +53,18 @@ theorem C13_edgeOp_accepts_only_edges (n0 n1 : ℕ) (i j : Int × Int) (E : PS) 
 theorem C13_edgeFace_eq (n0 n1 ix iy jx jy : ℕ) (h : EdgeOk n0 n1 ix iy jx jy) :
     edgeFace n0 n1 ((ix : Int), (iy : Int)) ((jx : Int), (jy : Int)) =
       .ok (auxFace n0 n1 (ix == jx) (min ix jx) (min iy jy)) := edgeFace_ok h
+
+/-- `edge_to_odd_face_index` raises `ValueError` for a pair that is not a nearest-neighbour pair and for a pair whose
+smaller corner lies outside the rectangle -/
+theorem C13_edgeFace_rejects (n0 n1 : ℕ) (i j : Int × Int)
+    (h : isNN i j = false ∨ min i.1 j.1 < 0 ∨ min i.2 j.2 < 0 ∨ min i.1 j.1 ≥ (n0 : Int) ∨ min i.2 j.2 ≥ (n1 : Int)) :
+    edgeFace n0 n1 i j = .error .valueError := edgeFace_err n0 n1 i j h
+
+/-- the auxiliary qubit of an edge is linked with both endpoints of the edge in the adjacency matrix of the
+odd-face-centred lattice (C14's `faceAdj`: face qubit against a corner) -/
+theorem C13_aux_qubit_adjacent (n0 n1 ix iy jx jy f : ℕ) (h : EdgeOk n0 n1 ix iy jx jy)
+    (hf : auxFace n0 n1 (ix == jx) (min ix jx) (min iy jy) = some f) :
+    faceAdj n0 n1 f (vIdx n1 ix iy) = true ∧ faceAdj n0 n1 f (vIdx n1 jx jy) = true := auxFace_adjacent h hf
 
 /-- the auxiliary qubit of an edge is the auxiliary qubit of the *numbered* (`x + y` even) face among the two faces the
 edge borders, if that face lies in the rectangle; it is a qubit of the register beyond the primary ones -/
@@ -214,6 +228,25 @@ theorem C13_loops_commute (n0 n1 x y x' y' : ℕ) (h : FaceIn n0 n1 x y) (h' : F
       (loopStr n0 n1 x' y').mat (ofcNsites n0 n1) * (loopStr n0 n1 x y).mat (ofcNsites n0 n1) := by
   have e := anti_loop_loop h h'
   exact ⟨(anti_false_iff _ _).mp e, mat_comm_of_not_anti _ _ _ (loopStr_hasLen h) (loopStr_hasLen h') e⟩
+
+/-- **"the product of the edge operators around a face" is well defined**: starting from any of the four corners and going
+round in either direction gives the same string (`E₀ … E₃`: edge operators along
+`(x,y) → (x,y+1) → (x+1,y+1) → (x+1,y) → (x,y)`, `F₀ … F₃`: operators of the reversed edges) -/
+theorem C13_loop_orientation_independent (n0 n1 x y : ℕ) (h : FaceIn n0 n1 x y) :
+    let E0 := edgeStr n0 n1 x y x (y + 1)
+    let E1 := edgeStr n0 n1 x (y + 1) (x + 1) (y + 1)
+    let E2 := edgeStr n0 n1 (x + 1) (y + 1) (x + 1) y
+    let E3 := edgeStr n0 n1 (x + 1) y x y
+    let F0 := edgeStr n0 n1 x (y + 1) x y
+    let F1 := edgeStr n0 n1 (x + 1) (y + 1) x (y + 1)
+    let F2 := edgeStr n0 n1 (x + 1) y (x + 1) (y + 1)
+    let F3 := edgeStr n0 n1 x y (x + 1) y
+    let L := loopStr n0 n1 x y
+    L = ((E0.mul E1).mul E2).mul E3 ∧
+    ((E1.mul E2).mul E3).mul E0 = L ∧ ((E2.mul E3).mul E0).mul E1 = L ∧ ((E3.mul E0).mul E1).mul E2 = L ∧
+    ((F3.mul F2).mul F1).mul F0 = L ∧ ((F2.mul F1).mul F0).mul F3 = L ∧ ((F1.mul F0).mul F3).mul F2 = L ∧
+    ((F0.mul F3).mul F2).mul F1 = L :=
+  ⟨rfl, loop_variants h⟩
 
 /-- loop products commute with every vertex operator and every edge operator -/
 theorem C13_loop_commutes_with_generators (n0 n1 x y : ℕ) (h : FaceIn n0 n1 x y) :
